@@ -17,7 +17,7 @@ sh(f"git checkout -q --detach {head} && git checkout -- . && git clean -fdq")
 readme = "\n".join(open(f).read() for f in glob.glob(os.path.join(d, "demo", "README*")))
 line = next(l for l in readme.split("\n") if "cargo test" in l and "--test" in l)
 crate = re.search(r"-p\s+(\S+)", line).group(1)
-test = re.search(r"--test\s+(\S+)", line).group(1)
+test = re.search(r"--test\s+([A-Za-z0-9_]+)", line).group(1)
 extra = re.search(r"cargo test[^\n]*(--features\s+\S+)", readme)
 feat = extra.group(1) if extra else ""
 src = os.path.join(d, "demo", test + ".rs")
